@@ -71,14 +71,15 @@ class C08(Engine):
     }
     tiers = {
         'quick': dict(runs=1600, wall_cap=170, chunk=4, minimise_s=40,
-                      stuck_after_s=240),
+                      stuck_after_s=240, hang_confirm_s=300),
         'thorough': dict(runs=60000, wall_cap=3300, chunk=8, minimise_s=120,
-                         stuck_after_s=400),
+                         stuck_after_s=600, hang_confirm_s=900),
     }
 
     def gen_case(self, run_seed):
         knobs = random.Random(mix(run_seed, 'knobs'))
         codec = knobs.choice(CODECS)
+        numeric_enums = knobs.random() < 0.15
         features = None
 
         if knobs.random() < 0.4:
@@ -99,12 +100,14 @@ class C08(Engine):
             p_fault = knobs.choice([0.5, 0.7, 0.7, 0.9])
             drawn = world.draw_messages(parsed, rng,
                                         knobs.choice([10, 30, 30, 50]), codec,
+                                        numeric_enums=numeric_enums,
                                         big=knobs.random() < 0.1)
             messages = [[name, ser(value),
                          wire.draw_fault(faults, codec, p_fault)]
                         for name, value in drawn]
 
         return {'spec': spec, 'codec': codec, 'messages': messages,
+                'numeric_enums': numeric_enums,
                 'memory': knobs.random() < 0.12, 'seed': run_seed}
 
     def execute(self, case):
@@ -112,9 +115,13 @@ class C08(Engine):
         result = Result()
         codec = case['codec']
         text = specgen.render(case['spec'])
-        receiver = world.compile_text(text, codec)
-        reference = world.compile_text(text, codec)
+        numeric_enums = case.get('numeric_enums', False)
+        receiver = world.compile_text(text, codec, numeric_enums)
+        reference = world.compile_text(text, codec, numeric_enums)
         result.log.append(['compile', codec, receiver[0]])
+
+        if numeric_enums:
+            result.stats['runs-numeric-enums'] += 1
 
         if receiver[0] != 'ok' or reference[0] != 'ok':
             result.stats['rejected-program'] += 1
@@ -328,8 +335,8 @@ class C08(Engine):
         outcome = world.parse(text)
 
         if outcome[0] == 'ok' and result.ticks <= 3 * RUN_TICKS:
-            probes = ProbeSet(outcome[1], case.get('seed', 0), codec, k=1,
-                              max_types=5)
+            probes = ProbeSet(outcome[1], case.get('seed', 0), codec,
+                              numeric_enums, k=1, max_types=5)
             got = probes.apply(receiver)
             expected = probes.apply(reference)
             difference = first_difference(got, expected)
